@@ -300,14 +300,36 @@ def check_swap(ctx, unit, classes, rule="S.swap"):
                 raise AnalysisBroken("anchor vanished: swap of %s" % rec["qn"])
             for f in sw:
                 ps = f.params()
-                swapped = set()
-                # free/friend swap(a, b) has two params; member swap(other) has one
-                for n in f.events():
+                fields = {x["n"] for x in rec["fields"]}
+                # free/friend swap(a, b) has two params; member swap(other) has one.  Path-sensitive: EVERY path to the
+                # exit exchanges every member; the only early exit allowed is under an identity test (&a == &b / this == &b)
+                from . import flow as _flow
+
+                def transfer(n, st):
                     if n.kind == "CallExpr" and n.callee and n.callee["n"] == "swap" and len(n.args) == 2:
                         a, b = path(n.args[0]), path(n.args[1])
                         if a and b and len(a) == 2 and len(b) == 2 and a[1] == b[1] and a[0] != b[0]:
-                            swapped.add(a[1])
-                fields = {x["n"] for x in rec["fields"]}
+                            return [st | {a[1]}]
+                    return [st]
+
+                def refine(cond, truth, st):
+                    c, t = cond.strip(), truth
+                    while c.kind == "UnaryOperator" and c.op == "!":
+                        c, t = c.children[0].strip(), not t
+                    if c.kind == "BinaryOperator" and c.op in ("==", "!="):
+                        sides = [x.strip() for x in c.children]
+                        ident = all((x.kind == "UnaryOperator" and x.op == "&") or x.kind == "CXXThisExpr" for x in sides)
+                        if ident and ((c.op == "==") == t):
+                            return [st | {"<same object>"}]
+                    return [st]
+                _, ex = _flow.run(f, [frozenset()], transfer, refine)
+                swapped = set(fields)
+                for st in ex:
+                    if "<same object>" in st:
+                        continue
+                    swapped &= set(st)
+                if not ex:
+                    swapped = set()
                 missing = fields - swapped
                 ctx.inst(rule, "%s::swap" % cls, not missing, f.loc,
                          "fields %s; exchanged %s; missing %s (instantiation %s)" % (
